@@ -202,6 +202,10 @@ def gather():
     for n in ("GENERIC_ERROR", "SERVER_ERROR", "PROTOCOL_ERROR", "METHOD_UNKNOWN"):
         C["message_" + n.lower()] = need(d, n, "message.rs")
 
+    # bencode.rs nesting cap of the precheck pass
+    d, _ = eval_consts(read("src/bencode.rs"))
+    C["bencode_max_depth"] = need(d, "MAX_DEPTH", "bencode.rs")
+
     # socket.rs receive buffer
     src = strip_test_mod(read("src/socket.rs"))
     m = re.search(r"let\s+mut\s+buffer\s*=\s*vec!\[0u8;\s*(\d+)\]", src)
